@@ -394,6 +394,65 @@ func (r *wrun) owners(t *wmpt.WeightedMerkleTrie) (list []any, total int64, ok b
 	return
 }
 
+// shape walks the stored trie below a root (records parsed by the bridge) and renders it as the term the specification's
+// canonical form is compared with: ["V", value, weight] / ["S", [nibbles], kid] / ["B", weight, [[nibble, kid], ...]] /
+// ["M"] (missing or unreadable).  Returns nil for tries of more than 40 nodes.
+func (r *wrun) shape(root []byte) any {
+	nodes := 0
+	ints := func(b []byte) []any {
+		out := make([]any, len(b))
+		for i, c := range b {
+			out[i] = int(c)
+		}
+		return out
+	}
+	var walk func(h []byte) (any, int64)
+	walk = func(h []byte) (any, int64) {
+		nodes++
+		data, err := r.db.Get(h)
+		if err != nil || nodes > 40 {
+			return []any{"M"}, 0
+		}
+		n, err := bridge.ParseWNode(data)
+		if err != nil {
+			return []any{"M"}, 0
+		}
+		switch n.Kind {
+		case 'V':
+			return []any{"V", string(n.Value), r.sw(n.Weight)}, r.sw(n.Weight)
+		case 'S':
+			kid, w := walk(n.Child)
+			return []any{"S", ints(n.Key), kid}, w
+		case 'B':
+			var kids []any
+			total := int64(0)
+			for i, k := range n.Kids {
+				if k == nil {
+					continue
+				}
+				var kid any
+				var w int64
+				if k.Embedded {
+					var sub any
+					sub, w = walk(k.ValueHash)
+					kid = []any{"S", ints(k.Key), sub}
+				} else {
+					kid, w = walk(k.Hash)
+				}
+				total += w
+				kids = append(kids, []any{i, kid})
+			}
+			return []any{"B", total, kids}, total
+		}
+		return []any{"M"}, 0
+	}
+	t, _ := walk(root)
+	if nodes > 40 {
+		return nil
+	}
+	return t
+}
+
 // reopen opens a second trie from the last durably committed (root, weight)
 // alone; it never touches the live trie (reading Root() of a dirty trie is an
 // operation of its own: "readroot").
@@ -405,8 +464,15 @@ func (r *wrun) reopen(tag string) {
 		t2 = wmpt.New(nil, r.db)
 	}
 	list, total, ok := r.owners(t2)
-	r.emit(map[string]any{"op": "reopen", "after": tag, "root": r.in.ID(root), "total": total, "owners": list, "ok": ok,
-		"rootOK": bytes.Equal(t2.Root(), root)})
+	ev := map[string]any{"op": "reopen", "after": tag, "root": r.in.ID(root), "total": total, "owners": list, "ok": ok,
+		"rootOK": bytes.Equal(t2.Root(), root)}
+	// the stored trie as a term (small tries, every fifth reopen): compared with the canonical term of the durable content
+	if weight > 0 && (r.st.Events+r.tid)%5 == 0 {
+		if sh := r.shape(root); sh != nil {
+			ev["shape"] = sh
+		}
+	}
+	r.emit(ev)
 }
 
 // LongPad is a distinguishable filler that makes a value 40..130 bytes long.
@@ -444,7 +510,15 @@ func RunWMPT(w *tr.Writer, in *tr.Interner, st *WStats, tid int, h WHist) {
 	r.db.on = r.onWrite
 	r.t = wmpt.New(nil, r.db)
 	r.durRoot = bridge.EmptyState
-	r.emit(map[string]any{"op": "reset", "nkeys": len(r.keys), "empty": in.ID(bridge.EmptyState), "gmode": h.Mode, "uni": h.Uni, "scale": r.scale})
+	nibs := make([]any, len(r.keys))
+	for i, k := range r.keys {
+		row := make([]any, 0, 64)
+		for _, b := range k {
+			row = append(row, int(b>>4), int(b&15))
+		}
+		nibs[i] = row
+	}
+	r.emit(map[string]any{"op": "reset", "nkeys": len(r.keys), "empty": in.ID(bridge.EmptyState), "gmode": h.Mode, "uni": h.Uni, "scale": r.scale, "nibs": nibs})
 	st.Modes[h.Mode]++
 	var ckRoot []byte
 	var ckWeight uint64
